@@ -15,6 +15,7 @@ import json
 import math
 import os
 import random
+import threading
 import sys
 
 import vlib
@@ -25,6 +26,7 @@ sys.path.insert(0, HERE)
 import geom   # noqa: E402
 import gen    # noqa: E402
 import coqgeo  # noqa: E402
+import auxcheck  # noqa: E402
 
 DELTA = 1e-4
 KNOWN_SIG = "set_dir-reversal-after-cross_boundary"
@@ -223,7 +225,7 @@ class Checker:
                 prev = r
                 continue
             # position bookkeeping
-            if op in ("M", "B") and prev is not None:
+            if op in ("M", "B", "P") and prev is not None:
                 mv = hf(r["moved"])
                 exp = [hf(prev["pos"][k]) + mv * hf(prev["dir"][k]) for k in range(3)]
                 got = [hf(x) for x in r["pos"]]
@@ -270,7 +272,7 @@ class Checker:
                                    max=mx, unlimited=[ud, ub], got=list(got))
                     else:
                         ctx.count("agree:limited:" + ("found" if got[1] else "cut"))
-            elif op in ("R", "M") or (op == "D" and not r["onb"]):
+            elif op in ("R", "M", "P") or (op == "D" and not r["onb"]):
                 if p0 is None:
                     ctx.count("unchecked:here")
                 elif p0 != S:
@@ -287,7 +289,9 @@ class Checker:
                                        "logic evaluation of the geometry definition", fresh=r["p0"], definition=loc)
                         else:
                             ctx.count("agree:definition")
-                if op == "M" and self.geo is not None:
+                if op == "P" and (r["onb"] or hf(r["nstep"]) != 0.0 or r["nsurf"] >= 0):
+                    self.issue("state", i, "move_internal(pos) did not clear the surface / cached step")
+                if op in ("M", "P") and self.geo is not None:
                     loc, margin, _ = self.geo.locate([hf(x) for x in r["pos"]])
                     if loc is not None and margin > 10 * DELTA:
                         if tuple(loc) != S:
@@ -379,6 +383,19 @@ def build_scenarios(ctx):
             rays.append((pd[0], pd[1], gen.gen_program(r, r.choice([4, 6, 8]), pd[1], boundary_heavy=True)))
         if rays:
             scen.append(("deep%d%s" % (gi, "b" if gi % 2 == 0 else ""), g, rays))
+    # single-unit geometries traced to the exit: tie of the unit-level theorems
+    # (coq/C03/UnitWalk.v nav_trace, see coqgeo.run_unit_trace_comparison)
+    n_unit = 14 if quick else 120
+    for gi in range(n_unit):
+        g = gen.gen_geometry(r, basic=(gi % 3 == 0), depth=1)
+        rays = []
+        for _ in range(rays_per):
+            pd = gen.gen_ray(r, g)
+            if pd is None:
+                continue
+            rays.append((pd[0], pd[1], ["T 60"]))
+        if rays:
+            scen.append(("unit%d" % gi, g, rays))
     for gi in range(n_arr):
         g = gen.gen_array_geometry(r)
         rays = []
@@ -442,10 +459,24 @@ def run(ctx):
         "call order: find_next_step before move_*; cross_boundary only on a boundary without a pending step; on a not-yet-crossed boundary only set_dir/cross_boundary",
     ]
     proofs_ok = ctx.coq_prove("Properties_C03.v")
-    model_ok, _ = ctx.coq_build(["C03/Run.vo"])
+    model_ok, _ = ctx.coq_build(["C03/Run.vo", "C03/Indexer.vo", "C03/RectArray.vo", "C03/BIH.vo"])
     ctx.build_libs(["orange"])
     exe = ctx.compile_harness([os.path.join(HERE, "harness", "nav.cc")], "nav",
                               libs=["orange", "geocel", "corecel"])
+    # ---- auxiliary models (UniverseIndexer, RectArrayTracker, BIHTraverser) vs the real classes;
+    # runs in a thread next to the navigator harness (own harness, own Coq files, own PRNG
+    # derived from the seed so that the main stream does not depend on thread timing)
+    aux_state = {}
+
+    def aux_job():
+        try:
+            aux_state["n"] = auxcheck.run_aux(ctx, HERE, random.Random("C03-aux-%s" % ctx.seed))
+        except BaseException as e:      # re-raised in the main thread
+            aux_state["err"] = e
+    aux_thread = None
+    if model_ok:
+        aux_thread = threading.Thread(target=aux_job)
+        aux_thread.start()
     gdir = os.path.join(ctx.work, "geo")
     os.makedirs(gdir, exist_ok=True)
     scen = build_scenarios(ctx)
@@ -475,6 +506,7 @@ def run(ctx):
     k = 0
     all_issues = []
     model_jobs = []
+    unit_jobs = []
     for name, g, path, rays in index:
         if k >= len(recs) or recs[k]["op"] != "G":
             raise vlib.BuildError("harness output out of sync at %s" % name, out[-2000:])
@@ -493,7 +525,7 @@ def run(ctx):
             ctx.count("geometry-kind:" + ("corpus" if name.startswith("corpus") else "bundled" if g is None or name.endswith(".json") else name.rstrip("0123456789b")))
             ch = Checker(ctx, name, ri, p, d, ops, g)
             issues = ch.run(rr)
-            nontriv = sum(1 for x in rr if x.get("ok") and x["op"] in ("B", "X", "M", "D")) > 0
+            nontriv = sum(1 for x in rr if x.get("ok") and x["op"] in ("B", "X", "M", "D", "P")) > 0
             ctx.case((name, ri, p, d), nontrivial=nontriv)
             if len(ctx.samples) < 4:
                 ctx.sample({"geometry": name, "start": p, "dir": d, "ops": ops[:12],
@@ -503,6 +535,9 @@ def run(ctx):
                 all_issues.append(it)
             if g is not None and not name.endswith(".json"):
                 model_jobs.append((name, g, ri, p, d, ops, rr))
+            if name.startswith("unit") and g is not None and len(g.universes) == 1 \
+                    and g.universes[0].background() is None and not ch.poisoned:
+                unit_jobs.append((name, g, ri, p, d, rr))
     # the model replay costs Coq elaboration + vm_compute time per ray: the Gallina
     # model is compared on a sample of the generated geometries (every corpus
     # scenario, every `stride`-th geometry, first 4-5 rays); the fresh-initialisation
@@ -525,6 +560,8 @@ def run(ctx):
     ctx.log("oracle checks done: %d issues" % len(all_issues))
     if model_ok:
         try:
+            n_unit = coqgeo.run_unit_trace_comparison(ctx, unit_jobs, all_issues)
+            ctx.log("unit-level loop (UnitWalk.nav_trace) vs navigator: %d crossings agree on %d rays" % (n_unit, len(unit_jobs)))
             n_model = coqgeo.run_model_comparison(ctx, model_jobs, all_issues, DELTA)
         except RuntimeError as e:
             # coqc failed or timed out on a model replay file: the tie could not be established
@@ -532,6 +569,12 @@ def run(ctx):
     else:
         ctx.violation("model-broken", "the executable model coq/C03 no longer compiles",
                       getattr(ctx, "broken_proof", {}), no_input=True)
+    if aux_thread is not None:
+        aux_thread.join()
+        if "err" in aux_state:
+            raise aux_state["err"]
+        ctx.log("auxiliary differentials (indexer, rect array, BIH): %d cases" % aux_state.get("n", 0))
+        ctx.coverage["aux_cases_validated_against_impl"] = aux_state.get("n", 0)
     # ---- report
     ctx.log("model comparison done: %d records" % n_model)
     seen = set()
